@@ -431,6 +431,87 @@ func init() {
 		Bounds:   "outbound: all three commands, every source/destination/payload byte symbolic, payload lengths {0,1,2,15,16,254} (thorough 0..254), through GroupTunnel.Send (TCP-mode tunnel on the in-memory socket) and GroupRouter.Send; inbound: one message of every cEMI kind (L_Data req/con/ind with application or control unit, L_Raw x3, L_Busmon, unsupported) with all fields symbolic fed to the real serveGroupInbound goroutine, all interleavings of the three goroutines; end to end through knxnet.Pack/Unpack",
 		Outside:  "payloads above 254 bytes; more than one message per inbound run (ordering is C17)",
 	})
+
+	reg(&Spec{
+		ID:       "C04",
+		NoNative: true,
+		Quick: func(l *loaded) []Inst {
+			var out []Inst
+			for tcp := int64(0); tcp < 2; tcp++ {
+				for ready := int64(0); ready < 2; ready++ {
+					for fail := int64(0); fail < 2; fail++ {
+						out = append(out, Inst{Pkg: "knx", Fn: "HarnessC04Step", Args: []int64{tcp, ready, fail}, Note: "one step from an arbitrary receiver state"})
+					}
+				}
+				for late := int64(0); late < 2; late++ {
+					for _, k := range []int64{1, 2, 3} {
+						out = append(out, Inst{Pkg: "knx", Fn: "HarnessC04Stream", Args: []int64{k, tcp, late}, Note: "real process() goroutine, K requests"})
+					}
+				}
+			}
+			return out
+		},
+		Thorough: func(l *loaded) []Inst {
+			var out []Inst
+			for tcp := int64(0); tcp < 2; tcp++ {
+				for ready := int64(0); ready < 2; ready++ {
+					for fail := int64(0); fail < 2; fail++ {
+						out = append(out, Inst{Pkg: "knx", Fn: "HarnessC04Step", Args: []int64{tcp, ready, fail}})
+					}
+				}
+				for late := int64(0); late < 2; late++ {
+					for _, k := range []int64{1, 2, 3, 4} {
+						out = append(out, Inst{Pkg: "knx", Fn: "HarnessC04Stream", Args: []int64{k, tcp, late}})
+					}
+				}
+			}
+			return out
+		},
+		Covers:  []string{"C04.delivered", "C04.reack", "C04.tcp.delivered", "C04.stream.accepted", "C04.stream.repeated", "C04.stream.end"},
+		Bounds:  "one real handleTunnelReq step from an arbitrary state: expected number, connection channel, request channel and sequence number all symbolic (all 256x256x256x256 combinations, wrap included), UDP/TCP, consumer waiting or arriving arbitrarily late, socket send failing or not, all interleavings with the parked delivery goroutine; plus the real process() goroutine of a fresh epoch fed with K<=3 (thorough 4) requests of symbolic channel/sequence, reader present from the start or arriving after the burst",
+		Outside: "streams longer than K requests are covered by induction on the step only (the step harness starts from every counter value; process() carries no other state between iterations); delivery order (C17); reconnects inside one run (C09)",
+		Assume:  []string{"in-memory knxnet.Socket replaces the kernel"},
+	})
+	c03 := func(thorough bool) []Inst {
+		var out []Inst
+		ks := []int64{1, 2, 3}
+		if thorough {
+			ks = []int64{1, 2, 3, 4, 5}
+		}
+		for _, k := range ks {
+			for cfg := int64(0); cfg < 2; cfg++ {
+				out = append(out, Inst{Pkg: "knx", Fn: "HarnessC03Exchange", Args: []int64{k, 0, -1, cfg}, Note: "UDP, K environment events"})
+			}
+		}
+		out = append(out, Inst{Pkg: "knx", Fn: "HarnessC03Exchange", Args: []int64{2, 1, -1, 0}, Note: "TCP"},
+			Inst{Pkg: "knx", Fn: "HarnessC03Exchange", Args: []int64{2, 0, 0, 0}, Note: "first transmission fails"},
+			Inst{Pkg: "knx", Fn: "HarnessC03Exchange", Args: []int64{2, 0, 1, 0}, Note: "first retransmission fails"},
+			Inst{Pkg: "knx", Fn: "HarnessC03Exchange", Args: []int64{2, 1, 0, 0}, Note: "TCP, transmission fails"})
+		for r := int64(0); r < 4; r++ {
+			out = append(out, Inst{Pkg: "knx", Fn: "HarnessC03Relay", Args: []int64{r, 0}})
+		}
+		out = append(out, Inst{Pkg: "knx", Fn: "HarnessC03Relay", Args: []int64{0, 1}, Note: "ack channel already closed"})
+		for c := int64(0); c < 5; c++ {
+			out = append(out, Inst{Pkg: "knx", Fn: "HarnessC03Connect", Args: []int64{c}})
+		}
+		out = append(out, Inst{Pkg: "knx", Fn: "HarnessC03TwoSenders", Args: []int64{2, 1, 0}, Ctx: 3, NoNative: true},
+			Inst{Pkg: "knx", Fn: "HarnessC03TwoSenders", Args: []int64{2, 1, 1}, Ctx: 2, NoNative: true})
+		if thorough {
+			out = append(out, Inst{Pkg: "knx", Fn: "HarnessC03TwoSenders", Args: []int64{2, 2, 1}, Ctx: 2, NoNative: true},
+				Inst{Pkg: "knx", Fn: "HarnessC03TwoSenders", Args: []int64{3, 1, 1}, Ctx: 2, NoNative: true})
+		}
+		return out
+	}
+	reg(&Spec{
+		ID:       "C03",
+		NoNative: true,
+		Quick:    func(l *loaded) []Inst { return c03(false) },
+		Thorough: func(l *loaded) []Inst { return c03(true) },
+		Covers:   []string{"C03.matched", "C03.unmatched", "C03.tcp", "C03.sendfails", "C03.relay.delivered", "C03.connect.ok", "C03.connect.fails", "C03.two.end"},
+		Bounds:   "one real Send from an arbitrary state (sequence number and channel symbolic, so the 255->0 wrap is included) against an environment that K<=3 (thorough 5) times stays silent, lets a resend interval pass, offers an acknowledgement with symbolic sequence number and status, or closes the ack channel; two configurations (resend 2s/timeout 5s, 3s/7s) on the virtual clock; socket failing at the first or second transmission; TCP; handleTunnelRes offer window; requestConn outcomes; two concurrent senders against a gateway goroutine that acknowledges, loses or duplicates (context bound 2-3)",
+		Outside:  "3..8 concurrent senders and 600 Sends (one exchange from every counter value stands for any number of exchanges: requestTunnel keeps no other state between calls); real-time jitter: virtual time advances only when no goroutine can move",
+		Assume:   []string{"time.After/NewTicker/Stop are engine primitives on a virtual clock (timers never fire early, fire when nothing else can run)", "sync.Mutex: Unlock makes any waiter or newcomer eligible"},
+	})
 }
 
 func dptWireLen(m int64) int64 {
